@@ -68,9 +68,13 @@ func vRun(r *engine.Run, mode string) int {
 	}
 	var cases []json.RawMessage
 	for _, epn := range epns {
+		d := depth
+		if epn < 4096 && r.Thorough() {
+			d = depth - 1 // multi-level trees one level shallower (the sequences are the same, only the tree shape differs)
+		}
 		for a := range vOps {
 			for b := range vOps {
-				cases = append(cases, engine.J(vCase{Mode: mode, EPN: epn, First: []int{a, b}, Depth: depth}))
+				cases = append(cases, engine.J(vCase{Mode: mode, EPN: epn, First: []int{a, b}, Depth: d}))
 			}
 			cases = append(cases, engine.J(vCase{Mode: mode, EPN: epn, First: []int{a}, Depth: 1}))
 		}
